@@ -68,10 +68,16 @@ def render(rng, which):
                 lines.append("%s%s: %s:%s%s%s" % (prefix, name, crit, rng.choice(["", " ", "    ", "\t"]), v, u))
                 dp.append((crit, u, frac(v)))
                 maybe_noise(0.1)
-            v, u = n(rng), rng.choice("mu")
-            tot = rng.choice(["", "", " total"])
-            lines.append("%s%s%s: iterations=%d runtime: %s%ss" % (prefix, name, tot, rng.randint(1, 9999), v, u))
-            dp.append(("total", "ms", frac(v) / (1000 if u == "u" else 1)))
+            if rng.random() < 0.2:
+                # docs/extensions.md: the generic criterion line "may also be used for the total criteria"
+                v, u = n(rng), rng.choice(["ms", "s", "kb"])
+                lines.append("%s%s: total:%s%s%s" % (prefix, name, rng.choice(["", " ", "\t"]), v, u))
+                dp.append(("total", u, frac(v)))
+            else:
+                v, u = n(rng), rng.choice("mu")
+                tot = rng.choice(["", "", " total"])
+                lines.append("%s%s%s: iterations=%d runtime: %s%ss" % (prefix, name, tot, rng.randint(1, 9999), v, u))
+                dp.append(("total", "ms", frac(v) / (1000 if u == "u" else 1)))
             expected.append(dp)
         elif which == 1:
             v = n(rng)
